@@ -312,11 +312,11 @@ impl Decoder {
 
                 match default.method {
                     CryptMethod::V2 | CryptMethod::AESV2 => (
-                        default.length.map(|n| 8 * n).unwrap_or(dict.bits),
+                        default.length.map(|n| n.saturating_mul(8)).unwrap_or(dict.bits),
                         default.method,
                     ),
                     CryptMethod::AESV3 if dict.v == 5 => (
-                        default.length.map(|n| 8 * n).unwrap_or(dict.bits),
+                        default.length.map(|n| n.saturating_mul(8)).unwrap_or(dict.bits),
                         default.method,
                     ),
                     m => err!(other!("unimplemented crypt method {:?}", m)),
@@ -324,6 +324,12 @@ impl Decoder {
             }
             v => err!(other!("unsupported V value {}", v)),
         };
+        // the key length comes from the file. crypt filters that give /Length in bits instead of bytes
+        // are common and end up as 8 times the real size (the surplus is ignored below), so the bound
+        // is generous; a zero or absurd length must not reach the ciphers or the key buffers
+        if key_bits < 8 || key_bits > 8 * 256 {
+            err!(other!("invalid key length {}", key_bits))
+        }
         let level = dict.r;
         if !(2..=6).contains(&level) {
             err!(other!("unsupported standard security handler revision {}", level))
